@@ -7,6 +7,7 @@ use std::path::{Path, PathBuf};
 
 use serde_json::{json, Value};
 
+use crate::penc::{pdec, penc};
 use crate::disk;
 use crate::fmt::{self, Rec};
 use crate::hash;
@@ -149,19 +150,22 @@ pub fn algo_rank(a: &str) -> u8 {
 
 impl<'a> Interp<'a> {
     pub fn new(ctx: &'a mut Ctx, sc: &'a Value, run_id: &str) -> Interp<'a> {
-        let root = ctx.scratch.join(format!("r{run_id}"));
+        let style = sc.get("cache_style").and_then(|v| v.as_str()).unwrap_or("plain");
+        // "odd_root": every path of the run (cache, destinations, link targets) has a component that is not valid UTF-8;
+        // "odd_cache": only the cache directory's own name
+        let root = if style == "odd_root" { ctx.scratch.join(pdec(&format!("r{run_id}-\u{f7fe}\u{f7c3}x"))) } else { ctx.scratch.join(format!("r{run_id}")) };
         let _ = std::fs::remove_dir_all(&root);
         std::fs::create_dir_all(root.join("out")).ok();
         std::fs::create_dir_all(root.join("targets")).ok();
-        let style = sc.get("cache_style").and_then(|v| v.as_str()).unwrap_or("plain");
-        let cache = root.join("cache");
+        let cache = if style == "odd_cache" { root.join(pdec("cache-\u{f7ff}\u{f7e9}")) } else { root.join("cache") };
         let cache_arg = match style {
-            "trailing_slash" => format!("{}/", cache.display()),
-            "dotted" => format!("{}/./cache", root.display()),
-            "dotdot" => format!("{}/out/../cache", root.display()),
-            _ => cache.display().to_string(),
+            "trailing_slash" => format!("{}/", penc(&cache)),
+            "dotted" => format!("{}/./cache", penc(&root)),
+            "dotdot" => format!("{}/out/../cache", penc(&root)),
+            _ => penc(&cache),
         };
-        Interp {
+        let odd = style.starts_with("odd");
+        let mut it = Interp {
             ctx,
             sc,
             root,
@@ -179,7 +183,11 @@ impl<'a> Interp<'a> {
             targets: BTreeMap::new(),
             allow_tmp_leftovers: false,
             deferred: false,
+        };
+        if odd {
+            it.probe("non_utf8_paths");
         }
+        it
     }
 
     // ------------------------------------------------------------ bookkeeping
@@ -194,10 +202,10 @@ impl<'a> Interp<'a> {
     }
 
     pub fn subst(&self, s: &str) -> String {
-        s.replace("$C", &self.cache.display().to_string()).replace("$O", &self.root.join("out").display().to_string()).replace("$T", &self.root.join("targets").display().to_string()).replace("$R", &self.root.display().to_string())
+        s.replace("$C", &penc(&self.cache)).replace("$O", &penc(&self.root.join("out"))).replace("$T", &penc(&self.root.join("targets"))).replace("$R", &penc(&self.root))
     }
     pub fn unsubst(&self, s: &str) -> String {
-        s.replace(&self.root.display().to_string(), "$R")
+        s.replace(&penc(&self.root), "$R").replace(&self.root.display().to_string(), "$R")
     }
 
     pub fn key(&self, st: &Value) -> Option<String> {
@@ -518,7 +526,7 @@ impl<'a> Interp<'a> {
         for bin in ["sync", "astd", "tokio"] {
             let _ = self.ctx.worker(bin).call(&json!({"op":"env","act":"chdir","path":p}));
         }
-        self.cwd = Some(PathBuf::from(p));
+        self.cwd = Some(pdec(p));
     }
 
     fn log_step(&mut self, st: &Value, r: &Value) {
@@ -612,7 +620,7 @@ impl<'a> Interp<'a> {
             op.insert("mid".into(), m2);
         }
         let op = Value::Object(op);
-        let dest = st.get("to").and_then(|t| t.as_str()).map(|t| file_state(Path::new(&self.subst(t))));
+        let dest = st.get("to").and_then(|t| t.as_str()).map(|t| file_state(&pdec(&self.subst(t))));
         let list = if opname == "write" && matches!(st["end"].as_str(), Some("drop") | Some("pending_drop") | Some("close_drop")) { Some(disk::scan(&self.cache).live_entries()) } else { None };
         (bin, op, Pre { dest, list })
     }
@@ -982,7 +990,7 @@ impl<'a> Interp<'a> {
         let flav = Self::flav(st);
         let op = st["op"].as_str().unwrap_or("copy").to_string();
         let checked = !op.ends_with("_unchecked");
-        let to = PathBuf::from(self.subst(st["to"].as_str().unwrap_or("$O/x")));
+        let to = pdec(&self.subst(st["to"].as_str().unwrap_or("$O/x")));
         let post = file_state(&to);
         let by = if key.is_some() { "key" } else { "addr" };
         let (sri, content) = match key {
@@ -1303,7 +1311,7 @@ impl<'a> Interp<'a> {
         let tgt_arg = st["target"].as_str().unwrap_or("").to_string();
         let tgt_abs = {
             let s = self.subst(&tgt_arg);
-            let p = PathBuf::from(&s);
+            let p = pdec(&s);
             let joined = if p.is_absolute() { p } else { self.worker_cwd(st).join(p) };
             // the file the kernel reaches through this spelling (`dir/..` goes to the parent of what `dir` points to
             // when `dir` is a symlink); textual folding only when the path does not resolve
@@ -1428,14 +1436,14 @@ impl<'a> Interp<'a> {
             let key = if let Some(i) = k.as_u64() { self.sc["keys"][i as usize].as_str().unwrap_or("").to_string() } else { k.as_str().unwrap_or("").to_string() };
             Some(hash::bucket_path(&self.cache, &key))
         } else {
-            e.get("path").and_then(|p| p.as_str()).map(|p| PathBuf::from(self.subst(p)))
+            e.get("path").and_then(|p| p.as_str()).map(|p| pdec(&self.subst(p)))
         };
         if let Some(p) = path {
-            m.insert("path".into(), json!(p.display().to_string()));
+            m.insert("path".into(), json!(penc(&p)));
         }
         if let Some(t) = e.get("target_content") {
             let s = self.addr(t);
-            m.insert("target".into(), json!(hash::content_path(&self.cache, &s).display().to_string()));
+            m.insert("target".into(), json!(penc(&hash::content_path(&self.cache, &s))));
         } else if let Some(t) = e.get("target").and_then(|t| t.as_str()) {
             m.insert("target".into(), json!(self.subst(t)));
         }
@@ -1449,7 +1457,7 @@ impl<'a> Interp<'a> {
     fn env_step(&mut self, st: &Value) {
         let act = st["act"].as_str().unwrap_or("").to_string();
         let e = self.resolve_env(st);
-        let path = lexical_normalize(&PathBuf::from(e["path"].as_str().unwrap_or("")));
+        let path = lexical_normalize(&pdec(e["path"].as_str().unwrap_or("")));
         if st.get("hostile").is_some() {
             self.probe("hostile_step");
         }
@@ -1500,19 +1508,19 @@ impl<'a> Interp<'a> {
                     write_inplace(&path, &b)
                 }
                 "replace_with" => {
-                    let src = PathBuf::from(e["target"].as_str().unwrap_or(""));
+                    let src = pdec(e["target"].as_str().unwrap_or(""));
                     let b = std::fs::read(&src)?;
                     write_inplace(&path, &b)
                 }
                 "swap" => {
-                    let other = PathBuf::from(e["target"].as_str().unwrap_or(""));
+                    let other = pdec(e["target"].as_str().unwrap_or(""));
                     let a = std::fs::read(&path)?;
                     let b = std::fs::read(&other)?;
                     write_inplace(&path, &b)?;
                     write_inplace(&other, &a)
                 }
                 "symlink_to" => {
-                    let other = PathBuf::from(e["target"].as_str().unwrap_or(""));
+                    let other = pdec(e["target"].as_str().unwrap_or(""));
                     std::fs::remove_file(&path)?;
                     std::os::unix::fs::symlink(&other, &path)
                 }
@@ -1543,7 +1551,7 @@ impl<'a> Interp<'a> {
                 "mkdir" => std::fs::create_dir_all(&path),
                 "toplevel_symlink" => {
                     // one of the cache's top-level directories lives elsewhere (moved to a bigger disk and linked back)
-                    let tgt = PathBuf::from(e["target"].as_str().unwrap_or(""));
+                    let tgt = pdec(e["target"].as_str().unwrap_or(""));
                     std::fs::create_dir_all(&tgt)?;
                     if let Some(d) = path.parent() {
                         std::fs::create_dir_all(d)?;
@@ -1567,7 +1575,7 @@ impl<'a> Interp<'a> {
                     if let Some(d) = path.parent() {
                         std::fs::create_dir_all(d)?;
                     }
-                    std::os::unix::fs::symlink(e["target"].as_str().unwrap_or(""), &path)
+                    std::os::unix::fs::symlink(pdec(e["target"].as_str().unwrap_or("")), &path)
                 }
                 "insert_bytes" => {
                     let mut b = std::fs::read(&path)?;
@@ -1623,7 +1631,7 @@ impl<'a> Interp<'a> {
             return;
         }
         if let Some((as_, an, ms, mn)) = keep_times {
-            if let Ok(c) = std::ffi::CString::new(path.display().to_string()) {
+            if let Ok(c) = std::ffi::CString::new(std::os::unix::ffi::OsStrExt::as_bytes(path.as_os_str())) {
                 let ts = [libc::timespec { tv_sec: as_, tv_nsec: an }, libc::timespec { tv_sec: ms, tv_nsec: mn }];
                 unsafe {
                     libc::utimensat(libc::AT_FDCWD, c.as_ptr(), ts.as_ptr(), 0);
